@@ -91,6 +91,10 @@ pub struct BhCase {
     /// out of the bulkhead's poll_ready); that handle is not used for a call in that instant
     #[serde(default)]
     pub ready_err_at: Option<(u64, u8)>,
+    /// the bulkhead is named, and another bulkhead with the same name and max + this many slots
+    /// exists (and is alive) next to it: two bulkheads never share anything, whatever they are called
+    #[serde(default)]
+    pub namesake_extra: Option<usize>,
 }
 
 #[derive(Clone, Debug, Serialize, Deserialize)]
@@ -125,6 +129,7 @@ fn stress_strategy(tier: Tier) -> BoxedStrategy<BhCase> {
             starve_mask: 0,
             single_handle: false,
             ready_err_at: None,
+            namesake_extra: None,
             stress: Some(Stress {
                 max,
                 threads,
@@ -292,9 +297,10 @@ fn case_strategy(tier: Tier) -> BoxedStrategy<BhCase> {
             prop_oneof![4 => Just(0u64), 1 => (0u64..64).prop_map(|k| 1 << k), 1 => any::<u64>()],
             prop::bool::weighted(0.15),
             prop_oneof![4 => Just(None), 1 => (gen::instant(80), 0u8..4).prop_map(Some)],
+            prop_oneof![4 => Just(None), 1 => (0usize..=3).prop_map(Some)],
         ),
     )
-        .prop_map(|(max, wait, clones, callers, order, hold, (setter_order, decoy, nest_mask, listeners, starve_mask, single_handle, ready_err_at))| BhCase {
+        .prop_map(|(max, wait, clones, callers, order, hold, (setter_order, decoy, nest_mask, listeners, starve_mask, single_handle, ready_err_at, namesake_extra))| BhCase {
             max,
             wait,
             clones,
@@ -309,6 +315,7 @@ fn case_strategy(tier: Tier) -> BoxedStrategy<BhCase> {
             starve_mask,
             single_handle,
             ready_err_at,
+            namesake_extra,
         })
         .boxed()
 }
@@ -495,7 +502,18 @@ async fn interp(case: &BhCase) -> Verdict {
         })
     };
     let (cfg_max, cfg_wait) = (case.max, case.wait);
+    // a namesake: same name, more slots, built first and kept alive to the end
+    let _namesake = case.namesake_extra.map(|extra| {
+        let l = BulkheadLayer::builder()
+            .name("vcheck-bulkhead")
+            .max_concurrent_calls(case.max + 1 + extra)
+            .build();
+        l.layer(Scripted::new(Log::new(), 1, |_, _, _| Step::ok(0)))
+    });
     let mut b0 = BulkheadLayer::builder();
+    if case.namesake_extra.is_some() {
+        b0 = b0.name("vcheck-bulkhead");
+    }
     // the wait decoys need a later wait setter that overrides them
     let has_wait_setter = !matches!(case.wait, Wait::None);
     b0 = match case.decoy {
@@ -1044,6 +1062,9 @@ async fn interp(case: &BhCase) -> Verdict {
     }
     if saw_ready_err {
         v.classes.push("transient_readiness_error_of_the_wrapped_service");
+    }
+    if case.namesake_extra.is_some() {
+        v.classes.push("another_bulkhead_with_the_same_name_alive");
     }
     if case.starve_mask & ((1u64 << case.callers.len().min(63)) - 1) != 0 {
         v.classes.push("first_poll_with_exhausted_cooperative_budget");
